@@ -16,6 +16,10 @@ def full_context_obj(C):
     ctx = context_obj(C)
     ctx.fields['_Objects'] = lib.bitset_class(C, 'Objects')
     ctx.fields['_Properties'] = lib.bitset_class(C, 'Properties')
+    meths = C.closure_funcs()
+    for tag in ('Objects', 'Properties'):
+        for nm in ('prime', 'double', 'doubleprime'):      # the closures are also class attributes of the bitset class
+            ctx.fields['_' + tag].fields[nm] = meths[(tag, nm)]
     return ctx
 
 
